@@ -26,6 +26,7 @@ import (
 	"testing"
 	"time"
 
+	"github.com/datastax/go-cassandra-native-protocol/datatype"
 	"github.com/datastax/go-cassandra-native-protocol/frame"
 	"github.com/datastax/go-cassandra-native-protocol/message"
 	"github.com/datastax/go-cassandra-native-protocol/primitive"
@@ -933,6 +934,50 @@ func c17GenBackend(rt *rapid.T) c17Backend {
 	}
 	if rapid.IntRange(0, 2).Draw(rt, "internal") == 0 {
 		c.Internal = rapid.SampledFrom([]string{"options", "use", "system_local", "system_peers"}).Draw(rt, "internalkind")
+	}
+	if rapid.IntRange(0, 7).Draw(rt, "hostilerows") == 0 {
+		// a well-formed ROWS answer to the proxy's own system.local / system.peers query whose content is unusable
+		c.Internal = rapid.SampledFrom([]string{"system_local", "system_peers"}).Draw(rt, "rowstarget")
+		col := func(name string, t datatype.DataType, i int) *message.ColumnMetadata {
+			return &message.ColumnMetadata{Keyspace: "system", Table: "local", Name: name, Index: int32(i), Type: t}
+		}
+		variant := rapid.SampledFrom([]string{"rpc_address is null", "rpc_address is 3 bytes", "no rpc_address column", "only a key column", "data_center is null", "every cell is null", "two rows, both without usable address", "rpc_address is a varchar"}).Draw(rt, "rowsvariant")
+		cols := []*message.ColumnMetadata{col("key", datatype.Varchar, 0), col("rpc_address", datatype.Inet, 1), col("data_center", datatype.Varchar, 2), col("host_id", datatype.Uuid, 3), col("tokens", datatype.NewSet(datatype.Varchar), 4),
+			col("release_version", datatype.Varchar, 5), col("partitioner", datatype.Varchar, 6), col("cql_version", datatype.Varchar, 7), col("peer", datatype.Inet, 8)}
+		row := message.Row{[]byte("local"), {127, 9, 9, 9}, []byte("dc1"), make([]byte, 16), nil, []byte("4.0.0"), []byte("org.apache.cassandra.dht.Murmur3Partitioner"), []byte("3.4.5"), {127, 9, 9, 8}}
+		rows := message.RowSet{row}
+		switch variant {
+		case "rpc_address is null":
+			row[1], row[8] = nil, nil
+		case "rpc_address is 3 bytes":
+			row[1], row[8] = []byte{1, 2, 3}, []byte{1, 2, 3}
+		case "no rpc_address column":
+			cols, row = append(cols[:1:1], cols[2:8]...), append(row[:1:1], row[2:8]...)
+			rows = message.RowSet{row}
+		case "only a key column":
+			cols, rows = cols[:1], message.RowSet{row[:1]}
+		case "data_center is null":
+			row[2] = nil
+		case "every cell is null":
+			for i := range row {
+				row[i] = nil
+			}
+		case "two rows, both without usable address":
+			r2 := append(message.Row(nil), row...)
+			row[1], row[8], r2[1], r2[8] = nil, nil, []byte{}, []byte{}
+			rows = message.RowSet{row, r2}
+		case "rpc_address is a varchar":
+			cols[1], cols[8] = col("rpc_address", datatype.Varchar, 1), col("peer", datatype.Varchar, 8)
+			row[1], row[8] = []byte("not-an-address"), []byte("nope")
+		}
+		for i := range cols {
+			cols[i].Index = int32(i)
+		}
+		body, _, err := wire.EncodeBody(primitive.ProtocolVersion4, &frame.Body{Message: &message.RowsResult{Metadata: &message.RowsMetadata{ColumnCount: int32(len(cols)), Columns: cols}, Data: rows}}, true)
+		if err == nil {
+			c.Outcome, c.Note = fakecass.Outcome{Kind: "rawframe", RawOp: 8, RawBody: hex.EncodeToString(body), Then: ""}, "a well-formed ROWS result for "+c.Internal+" in which "+variant
+			c.Repeat = 2
+		}
 	}
 	return c
 }
